@@ -552,7 +552,11 @@ def run(ctx):
         "extraction_crosscheck": {"cases": len(samp), "agree": len(samp) - len(xbad)},
         "model_mismatches": mism,
         "spec_violations": outv,
-        "notes": "concurrent samples: %d; in-process serde comparisons: %d over the fields %s" % (conc["n"], ser["n"], ser["fields"]),
+        "notes": "proof-backed (Coq model + theorems + correspondence on which dump sections change, umask/nofile, parent exit): "
+                 "all subshell contexts, option-dependent stage classification, background jobs x collection, command-less "
+                 "stages; the reference semantics `spec_run` (python) decides the verdict on the code's own full dumps for every "
+                 "case; differential vs bash: none in this property (the expectations are isolation statements, not bash output). "
+                 "concurrent samples: %d; in-process serde comparisons: %d over the fields %s" % (conc["n"], ser["n"], ser["fields"]),
     }
 
 
